@@ -36,6 +36,25 @@ DIMS = {m["name"]: frozenset(m["dims"]) for m in MVARS}
 
 
 def gen_case(rng, tier, i):
+    if rng.random() < 0.12:
+        # a constructor mapping whose keys spell the SAME axis set in two ways ("X" and ("X",); ("X","Y") and ("Y","X")):
+        # every entry is a registration of its own, in the order listed
+        key = rng.choice([("X",), ("X", "Y")])
+        pool = POOL[key]
+        picks = rng.sample(pool, min(len(pool), rng.randint(2, 4)))
+        cut = rng.randint(1, len(picks) - 1)
+        groups = []
+        for part in (picks[:cut], picks[cut:]):
+            names, seen = [], set()
+            for n, d in part:
+                if frozenset(d) not in seen:
+                    names.append(n)
+                    seen.add(frozenset(d))
+            groups.append(names)
+        spell = [["str"], ["tuple"]] if key == ("X",) else [["tuple"], ["reversed"]]
+        rng.shuffle(spell)
+        return {"kind": "ctor2", "calls": [{"key": list(key), "names": g, "ow": False} for g in groups],
+                "spell": [x[0] for x in spell], "ctor_first": True}
     ncalls = rng.randint(1, 4)
     keys = [("X",)] if rng.random() < 0.5 else [("X",), ("X", "Y")]
     calls = []
@@ -121,7 +140,42 @@ def metric_arrays(grid, ds):
     return out
 
 
+def eval_ctor2(case):
+    import xgcm
+    calls = case["calls"]
+    ds, _ = mg.build_dataset(AXES, MVARS)
+    coords = {a["name"]: dict(a["coords"]) for a in AXES}
+    mapping = {}
+    for c, sp in zip(calls, case["spell"]):
+        k = {"str": c["key"][0], "tuple": tuple(c["key"]), "reversed": tuple(reversed(c["key"]))}[sp]
+        mapping[k] = list(c["names"])
+    want = slot_oracle(calls)
+    refused = any(o != "ok" for o, _ in want)
+    try:
+        grid = xgcm.Grid(ds, coords=coords, metrics=mapping, autoparse_metadata=False)
+        got = ("ok", mg.registry_of(grid))
+    except Exception as e:  # noqa: BLE001
+        grid, got = None, ("err:" + exc_kind(e), None)
+    detail = {}
+    if refused:
+        ok = got[0].startswith("err")
+    else:
+        ok = got == ("ok", want[-1][1])
+        if ok:
+            _, grid2, ds2 = run_history_split(calls)
+            m1, m2 = metric_arrays(grid, ds), metric_arrays(grid2, ds2)
+            if m1 != m2:
+                ok = False
+                detail["get_metric"] = [str(k) for k in m1 if m1[k] != m2[k]][:3]
+    if not ok:
+        detail["ctor"] = {"mapping": str(mapping), "impl": str(got)[:300], "entry_by_entry": str(want)[:300]}
+    return {"corr_ok": True, "prop_ok": ok, "branch": "ctor2:" + "+".join(case["spell"]) + (":refused" if refused else ""),
+            "detail": detail or None, "nt": True}
+
+
 def eval_case(case, drv):
+    if case.get("kind") == "ctor2":
+        return eval_ctor2(case)
     calls = case["calls"]
     states, grid, ds = run_history(calls, case["ctor_first"])
     req = (f"c16 2 X Y {mg.enc_mvars(MVARS)} {mg.enc_calls(calls)}")
